@@ -99,42 +99,57 @@ class C17(PropBase):
             "non-hex bytes; a case is non-trivial when at "
             "least one builder returned a path; distinct = distinct case lines")
     trusted_base = [
-        "Coq 8.16.1 kernel (vm_compute in the refutation witnesses and non-vacuity Examples only)",
-        "model C17/Model.v written by hand from breakpad-symbols/src/lib.rs (leafname, safe_leafname, replace_or_add_extension, "
-        "five builders, moz_lookup, lookup); tied to the code by the correspondence run on the public builders",
+        "Coq 8.16.1 kernel (vm_compute in the refutation witnesses, the non-vacuity Examples and the by-computation obligations "
+        "c17_join_sites_modelled / c17_src_consumers_known / c17_src_sinks_known / c17_src_flow_sites_agree / c17_src_flow_table)",
+        "translate/c17_lookup.py: a small compiler (tokeniser, parser, type-directed lowering) from the Rust of leafname, safe_leafname, "
+        "replace_or_add_extension, the four builders, moz_lookup, lookup (lib.rs), basename (minidump-common utils.rs) and the escape set of join_rel "
+        "(http.rs; rest of that body pinned as text) to Gallina over C17/Prims.v — one hand-written definition per std operation (rsplit/split/rfind on "
+        "ASCII patterns, Iterator::next/last, Option combinators, Vec pop/push/join, String::pop = one character, slices); the generated functions are "
+        "proved equal to the hand-written model C17/Model.v (c17_src_tie) and are what the extracted driver runs against the real code",
+        "translate/c17_flow.py (regex / bracket matching, no type information): join sites and file-system sinks of lib.rs / http.rs with the provenance "
+        "of roots, joined strings and sink paths followed through let-bindings, parameters (every call site in the crate) and the Ok(..) values of "
+        "self.locate_file; unknown provenance is reported, not guessed; joins / sinks spelled in a way its patterns do not know are outside the guard; "
+        "translate/join_sites.py + C17/Consumers.v: the older textual pin of every .join( / join_rel( call",
         "Path::join modelled from std's PathBuf::push (unix exactly; windows for the cases that matter: drive / double-separator "
-        "/ rooted arguments); the POSIX join is additionally executed for real on every produced path by the harness; "
-        "C17/UrlModel.v: join_rel and the part of url 2.5.4's Url::join that applies to a reference against an http(s) base (trimming, "
+        "/ rooted arguments); the POSIX join is additionally executed for real on every produced path by the harness; Path::parent is not modelled; "
+        "C17/UrlModel.v: the part of url 2.5.4's Url::join that applies to a reference against an http(s) base (trimming, "
         "scheme detection, relative/absolute/authority/query/fragment branches, PATH encode set, dot-segment spellings, pop/shorten), written by "
         "hand from parser.rs and validated against the real crate by the url probe (lookup cases + server-URL cases; the scheme/authority "
         "branches are not reachable through the public API and are validated by reading only); host, query, fragment not modelled",
-        "str::to_lowercase modelled as ASCII lowering when compared with 'pdb'/'dll' (the only non-ASCII char lowering to ASCII is U+212A -> k)",
-        "translate/join_sites.py (regex/bracket extraction of every .join( / join_rel( call of the non-test code of lib.rs and http.rs); "
-        "C17/Consumers.v is a hand-written account of what each site joins (the fs probe and the url probe exercise the sites end to end); "
-        "joins written without .join( / join_rel( are outside the guard",
-        "ids: the theorems assume hex-only id text; the harness observes that DebugId::breakpad() and CodeId render hex only",
-        "extraction: ExtrOcamlBasic only; ocaml/zconv.ml + ocaml/c17/main.ml glue; harness/src/bin/c17.rs",
+        "str::to_lowercase / to_uppercase modelled as ASCII case mapping (compared with 'pdb'/'dll': the only non-ASCII char lowering to ASCII is U+212A -> k; "
+        "code ids are hex text)",
+        "C17/IdModel.v: DebugId parse / BreakpadFormat rendering and CodeId::new written by hand from debugid 0.8.0 (outside /repo, not translated), "
+        "compared with the real crate on every case; the harness also observes that both ids render hex only",
+        "extraction: ExtrOcamlBasic only; ocaml/zconv.ml + ocaml/c17/main.ml glue; harness/src/bin/c17.rs (lookup cases, url probe with a loopback "
+        "listener, filesystem probe in two sandboxes per case)",
     ]
     manifest = {
-        "text": "Theorems (Coq, all byte strings, all hex-only ids, all three FileKinds + code-info + mozilla-CAB variants): every "
-                "produced cache_rel/server_rel does not start with a separator, has no drive prefix and no `..` component "
-                "(c17_relative, _code_info, _moz), moz_lookup's unwrap never panics, and joining such a path onto any root under "
-                "POSIX or Windows Path::join rules (incl. verbatim roots) or by URL concatenation keeps the root as a prefix (c17_join_contained, "
-                "c17_join_verbatim_contained); for the real URL path — http.rs join_rel followed by WHATWG reference resolution as Url::join does it — "
-                "every safe path, hence every builder output, is requested below the base directory for every base path (c17_url_join_contained, "
-                "c17_url_requests_contained, c17_url_code_info_contained; refuted without the encoding). Consumers: every string a modelled consumer "
-                "(SimpleSymbolSupplier::locate_file, the four HTTP fetch paths) joins onto a symbol dir, cache dir or server URL is safe "
-                "(c17_consumers_join_only_safe), and the join sites extracted from lib.rs/http.rs on every run are exactly the modelled ones "
-                "(c17_join_sites_modelled); an end-to-end filesystem probe runs both suppliers over a sandbox with decoys. The tree "
-                "before the fix is refuted (c17_relative_unfixed_refuted). Model tied to the code by running both on ~45k exhaustive "
-                "and random (code_file, debug_file, ids) cases in debug and release builds; an independent oracle re-checks the three "
-                "conditions and a real std::path join on the implementation's answers.",
-        "note": "Trusted: Coq kernel; hand-written model of lib.rs (correspondence-checked, not verified); Path::join semantics from "
-                "std's source (Windows rules cannot be executed here: model-only); hand-written model of join_rel + url 2.5.4 path resolution, "
-                "checked against the real crate on ~12.6k probe predictions per run; ASCII lowering. No axioms.",
+        "text": "The Gallina model of the lookup code is COMPILED from the Rust source on every run (leafname, safe_leafname, replace_or_add_extension, "
+                "breakpad_sym_lookup, code_info_breakpad_sym_lookup, extra_debuginfo_lookup, binary_lookup, moz_lookup, lookup, join_rel's escape set, basename) "
+                "and proved equal to the hand-written model (c17_src_tie). Theorems on the generated code, for all byte strings (either separator style, "
+                "mixed and trailing separators, '.', '..', drive / UNC prefixes, NUL, non-ASCII), all DebugId values and all raw code ids (c17_ids_render_hex, "
+                "c17_src_all_ids): every cache_rel/server_rel of every FileKind, the code-info path and the mozilla-CAB variant does not start with a separator, "
+                "has no drive prefix and no `..` component (c17_src_relative, c17_src_code_info_contained, c17_src_moz; moz_lookup's unwrap never panics); "
+                "joining it onto any root under POSIX or Windows Path::join rules (incl. verbatim roots) or by concatenation keeps the root a prefix, and through "
+                "join_rel + WHATWG reference resolution (Url::join) it is requested below the base directory of every base path (c17_src_contained, "
+                "c17_join_contained, c17_join_verbatim_contained, c17_url_join_contained; refuted without the encoding). Consumers, derived from the source by "
+                "data flow: every .join( / join_rel( of SimpleSymbolSupplier / HttpSymbolSupplier joins a string that came out of a lookup builder onto a symbol "
+                "dir / cache dir / server URL, and it stays below that root for every module and kind (c17_src_consumers_known, c17_src_consumers_contained); "
+                "every file-system sink (fs::*, NamedTempFile, persist, SymbolFile::from_file, exists/is_file/...) receives a root or such a joined path "
+                "(c17_src_sinks_known, c17_src_sinks_contained). The tree before the fixes is refuted (c17_relative_unfixed_refuted, c17_url_unencoded_refuted). "
+                "Tie to the code: the extracted GENERATED model and the real code run on ~100k (code_file, debug_file, ids) cases in debug and release builds; "
+                "url probe (every request of HttpSymbolSupplier against a loopback server predicted by the model, ~12.6k) and filesystem probe (paths returned and "
+                "files created by both suppliers predicted by the flow model, ~4.5k; two sandboxes per case) ; an independent oracle re-checks the three "
+                "conditions, a real std::path join, request targets and sandbox containment on the implementation's answers.",
+        "note": "Trusted: Coq kernel; the Rust-to-Gallina compiler and the std vocabulary C17/Prims.v (validated by the correspondence run on the generated "
+                "model, not verified); the regex-based data-flow extraction of consumers and sinks (unknown provenance is reported; unrecognised spellings are "
+                "outside the guard); Path::join semantics from std's source (Windows rules cannot be executed here: model-only; Path::parent not modelled); "
+                "hand-written model of url 2.5.4 path resolution and of debugid's rendering, both compared with the real crates on every run; ASCII case "
+                "mapping. No axioms.",
     }
     assumptions = ["module strings are valid UTF-8 (they are Rust `str`); bytes >= 128 are never separators",
-                   "debug/code id text is hex-only (observed on every case through the real constructors, not proved about debugid)",
+                   "debug/code id text is hex-only: proved for the model of debugid's rendering (C17/IdModel.v, all values), observed on every case through "
+                   "the real constructors; the older theorems keep it as a hypothesis",
                    "URL theorems: path only (host, query, fragment not modelled); base is an http/https URL; strings are byte lists with elements 0..255"]
 
     # ------------------------------------------------------------------ cases
